@@ -3,7 +3,7 @@
   and the round trips of terms, atoms, body literals and rules.
 -/
 import ILV.Lemmas.TextSplit
-namespace ILV.Text
+namespace ILV.RText
 
 /-! ### splitters that count parentheses -/
 
@@ -981,4 +981,4 @@ theorem rule_roundtrip (r : Rule) (hwf : r.wf = true) (hl : r.litStable = true) 
     simp only [hhead, hsplit, hopt]
     simp
 
-end ILV.Text
+end ILV.RText
